@@ -36,7 +36,8 @@ class DirFamily(Family):
         return "%s %s %s" % (c["id"], ",".join("%s=%s" % (n, hx(b)) for n, b in c["files"]), ";".join(c["ops"]) or "-")
 
     def driver_line(self, c, impl_obs):
-        s = self.harness_line(c)
+        # an event without a change ("early") is nothing to the model
+        s = self.harness_line(dict(c, ops=[o for o in c["ops"] if not o.startswith("early:")]))
         if impl_obs is not None:
             s += " obs=" + impl_obs
         return s
@@ -57,10 +58,10 @@ class DirFamily(Family):
         return out
 
     def stats(self, cases, recs):
-        d = {"ops": {"a": 0, "rot": 0, "trunc": 0}, "initial_files": {}, "partial_appends": 0}
+        d = {"ops": {"a": 0, "rot": 0, "trunc": 0, "early": 0}, "initial_files": {}, "partial_appends": 0}
         for c in cases:
             for o in c["ops"]:
-                k = "a" if o.startswith("a:") else o
+                k = "a" if o.startswith("a:") else ("early" if o.startswith("early:") else o)
                 d["ops"][k] += 1
                 if o.startswith("a:") and not o.endswith("0a"):
                     d["partial_appends"] += 1
@@ -123,6 +124,12 @@ class DirFamily(Family):
     def cases(self, tier, rng):
         n = 1500 if tier == "quick" else 15000
         cs = [self.one(rng) for _ in range(n)]
+        # a write event for the live file that arrives during the start-up read (the consumer is slow), nothing having changed
+        for _ in range(n // 5):
+            c = self.one(rng)
+            total = sum(b.count("\n") for _, b in c["files"])
+            c["ops"] = ["early:%d" % rng.below(total + 1)] + c["ops"]
+            cs.append(c)
         cs.append(self.one(rng, big=True))
         # fixed witnesses of the two repaired defects stay in the corpus
         cs.append({"files": [("audit.log", ""), ("audit.log.1", "1\n"), ("audit.log.2", "2\n"), ("audit.log.9", "9\n"), ("audit.log.10", "10\n"), ("audit.log.11", "11\n")], "ops": []})
